@@ -157,7 +157,35 @@ func projFlat1(flat []float64, stride int, ord func(float64) any) []any {
 	return out
 }
 
+// hugeGeom: more ordinates than any geometry the suite feeds in (a decoder that went astray on a count field): recorded as a
+// placeholder that equals no geometry of the specification, instead of megabytes of JSON that the model checker cannot load
+func hugeGeom(g geom.T) bool {
+	n := 0
+	var walk func(g geom.T)
+	walk = func(g geom.T) {
+		if g == nil || n > 1<<13 {
+			return
+		}
+		if gc, ok := g.(*geom.GeometryCollection); ok {
+			n += gc.NumGeoms()
+			for _, m := range gc.Geoms() {
+				walk(m)
+			}
+			return
+		}
+		n += len(g.FlatCoords()) + len(g.Ends())
+		for _, es := range g.Endss() {
+			n += len(es) + 1
+		}
+	}
+	walk(g)
+	return n > 1<<13
+}
+
 func projWKB(g geom.T, ord func(float64) any) map[string]any {
+	if hugeGeom(g) {
+		return map[string]any{"t": "huge", "l": "-", "srid": []int{}, "body": []any{}}
+	}
 	p := map[string]any{"t": kindOf(g), "l": layoutName(g.Layout()), "srid": sridBytes(g.SRID())}
 	switch g := g.(type) {
 	case *geom.Point:
@@ -447,7 +475,11 @@ func wkbEncHandler(raw json.RawMessage) map[string]any {
 		w := &failWriter{f: f}
 		err := writeFlavor(w, g, order, c.Flavor)
 		wr = append(wr, map[string]any{"f": f, "err": err != nil, "n": len(w.got)})
-		if f == 0 || f == len(b) || f == len(b)+1 || (f+int(seed))%5 == 0 {
+		every := 5
+		if len(b) > 512 {
+			every = 257 // kilobyte-sized encodings: the received bytes of a few positions only (each sample is a copy of the prefix)
+		}
+		if f == 0 || f == len(b) || f == len(b)+1 || (f+int(seed))%every == 0 {
 			wrs = append(wrs, map[string]any{"f": f, "bytes": byteInts(w.got)})
 		}
 	}
@@ -1010,6 +1042,9 @@ func preWKB(g geom.T, ord func(float64) any, out []any) []any {
 // wfList: the flat representation (kind, layout, stride, lengths, ends) of every non-collection node, for
 // the spec's WellFormedObj; ordinates are irrelevant here and recorded as zeros.
 func wfList(g geom.T) []any {
+	if hugeGeom(g) { // (see hugeGeom) recorded as one node that is not well formed
+		return []any{map[string]any{"k": "huge", "l": "No", "stride": 0, "flat": []int{}, "ends": []int{}, "endss": [][]int{}}}
+	}
 	if gc, ok := g.(*geom.GeometryCollection); ok {
 		out := []any{}
 		for _, m := range gc.Geoms() {
